@@ -708,7 +708,9 @@ func (o *procOracle) deltaReq(f []string, line string) {
 		return
 	}
 	p := o.pr.p
-	if !e.respond {
+	if e.either && len(p.got) == 0 && len(p.calls) == 0 {
+		// silent: fine
+	} else if !e.respond && !e.either {
 		o.checkSilent(e.clause, line)
 	} else {
 		asked := e.asked
